@@ -61,7 +61,8 @@ PROP = {
             "argument together with the error), the failing one not the first one applied - RunHandlers reports it and is called "
             "again until it succeeds, the chain must then be the registered decorators, each once, in order; Handler.Stop() of one of "
             ">= 2 running handlers (T<h>), handlers added and given middlewares afterwards - they run router-level + their own, none "
-            "of a running or stopped handler's, and the running handlers keep their chains. several_outputs_with_equal_uuids (7 fixed programs; handler kinds d / e in the random ones): handler functions that "
+            "of a running or stopped handler's, and the running handlers keep their chains. several_outputs_with_equal_uuids (12 fixed programs incl. kind z = nil publisher and kind t = a real publisher with the "
+            "EMPTY publish topic, decorated like any other; handler kinds d / e in the random ones): handler functions that "
             "return two distinct messages with the SAME UUID or three with EMPTY UUIDs in one go - every publisher decorator "
             "(watermill's transform decorator for even ids, a hand-written one for odd ids) must act on every one of them, in the "
             "order added, before the publisher gets them all. Stopped handlers: the name of a stopped handler is used again by a "
